@@ -198,5 +198,7 @@ func addMsgs(errMap map[string][]string, context string, msg ...string) {
 	if _, ok := errMap[context]; !ok {
 		errMap[context] = []string{}
 	}
-	errMap[context] = append(errMap[context], msg...)
+	// the stored slice may be the caller's, with spare capacity over other data: cap it so that append copies rather than overwrites
+	cur := errMap[context]
+	errMap[context] = append(cur[:len(cur):len(cur)], msg...)
 }
